@@ -76,6 +76,10 @@ Proof. intros Hn. apply IZR_lt. apply Z.pow_pos_nonneg; lia. Qed.
 Lemma lit_ToUnit_8_eq : lit_ToUnit_8 = 8%Z.
 Proof. reflexivity. Qed.
 
+(* Go's int arithmetic on the unit exponent does not wrap inside the int64 range *)
+Lemma wrap64_small z : (- 2 ^ 63 <= z < 2 ^ 63)%Z -> wrap64 z = z.
+Proof. intros H. unfold wrap64. rewrite Z.mod_small by lia. lia. Qed.
+
 Lemma RN_abs_le_2_53 x : Rabs x <= IZR (2 ^ 53) -> Rabs (RN x) <= IZR (2 ^ 53).
 Proof.
   intros Hx. apply abs_round_le_generic; [apply FLT_exp_valid; reflexivity|auto with typeclass_instances| |assumption].
@@ -88,7 +92,7 @@ Theorem to_unit_correct (a u : Z) :
   (Z.abs a <= 2 ^ 53)%Z -> (0 <= u + 8 <= 22)%Z ->
   B2R (to_unit a u) = RN (IZR a / IZR (10 ^ (u + 8))) /\ is_finite (to_unit a u) = true.
 Proof.
-  intros Ha Hu. unfold to_unit. rewrite lit_ToUnit_8_eq.
+  intros Ha Hu. unfold to_unit. rewrite lit_ToUnit_8_eq. rewrite wrap64_small by lia.
   destruct (of_Z_exact a Ha) as [Hav Haf]. destruct (pow10_exact _ Hu) as [Hpv Hpf].
   pose proof (pow10_pos (u + 8) (proj1 Hu)) as Hpos.
   pose proof (Bdiv_correct 53 1024 _ _ mode_NE (of_Z a) (pow10 (u + 8))) as H.
